@@ -35,9 +35,13 @@
 //     Cut.Ops of them completely, and, if the next one is a Write, optionally its
 //     first Cut.Bytes bytes (a torn write). Cut{Ops: all} = "keep all" (the page
 //     cache was flushed by luck), Cut{} = "drop all", anything between = a
-//     generated prefix. Unsynced bytes never turn into garbage or zeroes and
-//     operations are never reordered; those outcomes are also allowed by POSIX but
-//     are outside this model.
+//     generated prefix. Operations are never reordered and lost bytes never turn
+//     into arbitrary garbage (both also allowed by POSIX, outside this model).
+//   - Optionally (Cut.Zero) the file SIZE changes of the lost operations survive
+//     while their data does not: lost writes (and the lost tail of a torn write)
+//     read back as zero bytes, lost truncations are applied. This is the
+//     "inode size journaled, data blocks not yet written" outcome of delayed
+//     allocation file systems; it is the case record checksums exist for.
 //   - Open handles do not survive. An inode with no name left at op k is gone.
 package crashfs
 
@@ -135,6 +139,9 @@ type Mark struct {
 type Log struct {
 	Ops   []Op   `json:"ops"`
 	Marks []Mark `json:"marks,omitempty"`
+	// Genesis > 0: ops[0:Genesis] are the synthetic, fully synced creation of the
+	// state a materialised file system started with; real ops follow.
+	Genesis int `json:"genesis,omitempty"`
 }
 
 type inode struct {
@@ -183,7 +190,7 @@ func (m *FS) UseAfterClose() int { m.mu.Lock(); defer m.mu.Unlock(); return m.us
 func (m *FS) Log() *Log {
 	m.mu.Lock()
 	defer m.mu.Unlock()
-	return &Log{Ops: m.log.Ops[:len(m.log.Ops):len(m.log.Ops)], Marks: append([]Mark(nil), m.log.Marks...)}
+	return &Log{Ops: m.log.Ops[:len(m.log.Ops):len(m.log.Ops)], Marks: append([]Mark(nil), m.log.Marks...), Genesis: m.log.Genesis}
 }
 
 func (m *FS) add(o Op) {
@@ -561,8 +568,9 @@ func (h *handle) Close() error {
 // the first Ops of them completely and, if the following one is a Write, its
 // first Bytes bytes.
 type Cut struct {
-	Ops   int `json:"ops"`
-	Bytes int `json:"bytes,omitempty"`
+	Ops   int  `json:"ops"`
+	Bytes int  `json:"bytes,omitempty"`
+	Zero  bool `json:"zero,omitempty"` // sizes of the lost ops survive, their data reads as zero
 }
 
 // DirtyFile describes an inode that has unsynced content operations at a
@@ -720,6 +728,20 @@ func (l *Log) Materialize(k int, cuts map[int]Cut) *FS {
 				if c.Bytes > 0 {
 					data = l.applyContent(data, st.pending[c.Ops], c.Bytes)
 				}
+				if c.Zero {
+					for j := c.Ops; j < len(st.pending); j++ {
+						o := &l.Ops[st.pending[j]]
+						if o.Kind != OpWrite {
+							data = l.applyContent(data, st.pending[j], -1)
+							continue
+						}
+						skip := 0
+						if j == c.Ops {
+							skip = c.Bytes
+						}
+						data = writeAt(data, o.Pos+int64(skip), make([]byte, len(o.Data)-skip))
+					}
+				}
 			}
 			out.nextIno++
 			d = &inode{id: out.nextIno, data: append([]byte(nil), data...)}
@@ -727,7 +749,45 @@ func (l *Log) Materialize(k int, cuts map[int]Cut) *FS {
 		}
 		out.files[name] = d
 	}
+	out.genesis()
 	return out
+}
+
+// genesis logs the pre-existing content of a materialised file system as
+// synthetic, fully synced operations, so that the log of the file system
+// (recovery writes, later requests, Close) can itself be crashed: every prefix
+// k >= Log.Genesis of it is a crash point of the SECOND process.
+func (m *FS) genesis() {
+	dirs := make([]string, 0, len(m.dirs))
+	for d := range m.dirs {
+		dirs = append(dirs, d)
+	}
+	sort.Strings(dirs)
+	for _, d := range dirs {
+		m.add(Op{Kind: OpMkdirAll, Path: d})
+	}
+	names := make([]string, 0, len(m.files))
+	for n := range m.files {
+		names = append(names, n)
+	}
+	sort.Strings(names)
+	done := map[int]string{}
+	for _, n := range names {
+		d := m.files[n]
+		if first, ok := done[d.id]; ok {
+			panic(fmt.Sprintf("crashfs: inode %d has two names %s and %s", d.id, first, n))
+		}
+		done[d.id] = n
+		m.nextH++
+		h := m.nextH
+		m.add(Op{Kind: OpOpen, Path: n, Flag: os.O_CREATE | os.O_WRONLY, Ino: d.id, Created: true, Handle: h})
+		if len(d.data) > 0 {
+			m.add(Op{Kind: OpWrite, Path: n, Ino: d.id, Pos: 0, Data: append([]byte(nil), d.data...), Handle: h})
+		}
+		m.add(Op{Kind: OpSync, Path: n, Ino: d.id, Handle: h})
+		m.add(Op{Kind: OpClose, Path: n, Ino: d.id, Handle: h})
+	}
+	m.log.Genesis = len(m.log.Ops)
 }
 
 // applyContent applies content op i (a write, truncate or O_TRUNC open) to data;
